@@ -217,11 +217,13 @@ pub fn run_case(ctx: &mut Ctx, case: &Value) {
     // decoys actually drawn: the digests of the payload (any `_sd` list or array placeholder) that belong to
     // none of the token's disclosures; the model is then given exactly those
     let ds0: Vec<String> = discs0.as_array().map(|a| a.iter().filter_map(|d| d.as_str().map(|s| s.to_string())).collect()).unwrap_or_default();
-    let cnf_j = if kb { jwk.clone() } else { Value::Null };
+    // the model is told the `cnf` value as written when it names the requested key in either accepted form
+    let cnf_j = if kb { if cnf_is_key(payload0.get("cnf"), &jwk) { payload0["cnf"].clone() } else { jwk.clone() } } else { Value::Null };
     let probe = ctx.driver.ask(&json!({"op":"issue","claims":claims,"paths":paths,"discs":discs0,"decoys":Value::Null,"cnf":cnf_j}));
     let mut drawn: Vec<String> = Vec::new();
     let model_first = if first_ok {
-        let own: Vec<String> = ds0.iter().map(|d| crate::tree::sha256_b64(d)).collect();
+        let alg0 = crate::tree::declared_sd_alg(&payload0).unwrap_or_else(|| "sha-256".to_string());
+        let own: Vec<String> = ds0.iter().map(|d| crate::tree::digest_b64(&alg0, d)).collect();
         all_digests(&payload0, &mut drawn);
         drawn.retain(|d| !own.contains(d));
         if let Some(d) = decoy {
@@ -250,7 +252,7 @@ pub fn run_case(ctx: &mut Ctx, case: &Value) {
             SEARCHES.fetch_add(1, std::sync::atomic::Ordering::Relaxed);
             // the disclosures need not come in the order of the paths: which one hides which node is read off the digests
             let mut t2 = tree.clone();
-            t2.harvest(&payload0, &ds0);
+            t2.harvest(&payload0, &ds0, &crate::tree::declared_sd_alg(&payload0).unwrap_or_else(|| "sha-256".to_string()));
             let found: std::collections::HashMap<String, String> = t2.marks().iter().filter_map(|m| t2.disc_of_mark(m.id).map(|d| (m.path.clone(), d))).collect();
             let mut left: std::collections::VecDeque<String> = ds0.iter().filter(|d| !found.values().any(|f| &f == d)).cloned().collect();
             let by_digest: Vec<String> = paths.iter().map(|p| found.get(p).cloned().or_else(|| left.pop_front()).unwrap_or_default()).collect();
@@ -286,8 +288,8 @@ pub fn run_case(ctx: &mut Ctx, case: &Value) {
             let mut expected = claims.clone();
             let p = real::peek_jwt(&split_token(t).0).map(|x| x.1).unwrap_or(Value::Null);
             if kb {
-                expected["cnf"] = jwk.clone();
-                if p.get("cnf") != Some(&jwk) {
+                expected["cnf"] = if cnf_is_key(p.get("cnf"), &jwk) { p["cnf"].clone() } else { jwk.clone() };
+                if !cnf_is_key(p.get("cnf"), &jwk) {
                     ctx.report.diff("property", "Issuer::encode", "Issuer::encode:repeat-output-cnf", &c2, json!({"encode": round + 1, "cnf": p.get("cnf")}));
                 }
             }
